@@ -197,6 +197,32 @@ Proof. intros ops s Hs. apply reload_ok. apply brun_inv. exact Hs. Qed.
 
 (* ---------- block views ---------- *)
 
+Lemma firstn_clamp : forall (l : list Z) (k : Z), firstn (Z.to_nat (Z.min k (zlen l))) l = firstn (Z.to_nat k) l.
+Proof.
+  intros l k. unfold zlen. destruct (Z.le_ge_cases k (Z.of_nat (length l))) as [H|H].
+  - rewrite Z.min_l by exact H. reflexivity.
+  - rewrite Z.min_r by lia. rewrite Nat2Z.id. rewrite firstn_all. symmetry. apply firstn_all2. lia.
+Qed.
+
+Lemma skipn_clamp : forall (l : list Z) (k : Z), skipn (Z.to_nat (Z.min k (zlen l))) l = skipn (Z.to_nat k) l.
+Proof.
+  intros l k. unfold zlen. destruct (Z.le_ge_cases k (Z.of_nat (length l))) as [H|H].
+  - rewrite Z.min_l by exact H. reflexivity.
+  - rewrite Z.min_r by lia. rewrite Nat2Z.id. rewrite skipn_all. symmetry. apply skipn_all2. lia.
+Qed.
+
+(* the clamped definition is the plain slice contents[offset : offset + size] *)
+Lemma block_contents_unclamped : forall s off size,
+  block_contents s off size = firstn (Z.to_nat size) (skipn (Z.to_nat off) (bbytes s)).
+Proof.
+  intros s off size. unfold block_contents. cbv zeta. rewrite skipn_clamp.
+  set (t := skipn (Z.to_nat off) (bbytes s)).
+  assert (Ht : (length t <= length (bbytes s))%nat) by (unfold t; rewrite skipn_length; lia).
+  unfold zlen. destruct (Z.le_ge_cases size (Z.of_nat (length (bbytes s)))) as [H|H].
+  - rewrite Z.min_l by exact H. reflexivity.
+  - rewrite Z.min_r by lia. rewrite Nat2Z.id. rewrite (firstn_all2 t) by lia. rewrite (firstn_all2 t) by lia. reflexivity.
+Qed.
+
 Theorem block_contents_spec : forall s off size, 0 <= off -> 0 <= size ->
   block_contents s off size = firstn (Z.to_nat size) (skipn (Z.to_nat off) (bbytes s)) /\
   zlen (block_contents s off size) = Z.max 0 (Z.min size (zlen (bbytes s) - off)) /\
@@ -205,9 +231,9 @@ Theorem block_contents_spec : forall s off size, 0 <= off -> 0 <= size ->
 Proof.
   intros s off size Hoff Hsize.
   assert (Hlen : zlen (block_contents s off size) = Z.max 0 (Z.min size (zlen (bbytes s) - off))).
-  { unfold block_contents, zlen. rewrite firstn_length, skipn_length. lia. }
-  split; [reflexivity|]. split; [exact Hlen|].
-  intros i Hi. rewrite Hlen in Hi. unfold block_contents.
+  { rewrite block_contents_unclamped. unfold zlen. rewrite firstn_length, skipn_length. lia. }
+  split; [apply block_contents_unclamped|]. split; [exact Hlen|].
+  intros i Hi. rewrite Hlen in Hi. rewrite block_contents_unclamped.
   rewrite nth_firstn_lt by lia.
   rewrite nth_skipn_add. f_equal. lia.
 Qed.
@@ -265,6 +291,7 @@ Print Assumptions brun_inv.
 Print Assumptions reload_ok.
 Print Assumptions brun_reload.
 Print Assumptions poke_length.
+Print Assumptions block_contents_unclamped.
 Print Assumptions block_contents_spec.
 Print Assumptions contains_offset_spec.
 Print Assumptions contains_address_spec.
